@@ -173,6 +173,26 @@ def case(ctx, rng, idx):
 def case_det(ctx, rng, idx):
     cfg = det_config(rng)
     w = A.describe(cfg)
+    if rng.random() < 0.02:
+        # seeds with bit 31 set (a CRC, say): refusing them is fine; if one is accepted it is "a fixed non-negative integer
+        # seed", so two identical calls -- made in different clock seconds -- must agree
+        import time
+        cfg["kw"]["seed"] = rng.choice([2 ** 31, 2 ** 32 - 1, 2205044409])
+        w = A.describe(cfg)
+        try:
+            a = run_det(cfg)
+        except (OverflowError, ValueError, TypeError):
+            ctx.cat("det:seed>=2^31-refused")
+            return
+        except Exception as e:  # noqa
+            ctx.violation("exception:%s@%s" % (type(e).__name__, cfg["fn"]), "%r" % (e,), w)
+            return
+        ctx.cat("det:seed>=2^31-accepted")
+        time.sleep(1.05)
+        b = run_det(cfg)
+        if a != b and cfg["kw"]["num_anneals"] >= 1:
+            ctx.violation("nondeterministic:seed>=2^31", "seed=%r is accepted but two identical calls a second apart differ" % cfg["kw"]["seed"], w)
+        return
     try:
         a = run_det(cfg)
         b = run_det(cfg)
